@@ -5,7 +5,7 @@ CONSTANTS
   Vs = {2, 3}
   TVs = {0, 1, 2}
   Widths = {1, 2, 3, 5, 30}
-  MaxItersS = {0, 1, 2, 3}
+  MaxItersS = {0, 1, 2, 3, 4}
   NoEos = NoEos
 INVARIANT ScoreIsChain
 INVARIANT StopsAtFirstEos
